@@ -37,7 +37,7 @@ META = {
                     "json.loads(json.dumps m) = m"],
 }
 
-IMPORTS = ["Lib.Hex", "Model.Dirnode"]
+IMPORTS = ["Lib.Hex", "Model.Dirnode", "Model.DirnodeLit"]
 PREAMBLE = """
 Definition view_eqb (a b : smap (node * bytes)) : bool :=
   Nat.eqb (List.length a) (List.length b) &&
@@ -265,17 +265,17 @@ def path_model(ctx, i, r, t, root, root_ro, store, tbl, terms, info, case):
         data = dir_plaintext(store, dn)
         ro_uri = dn.get_readonly_uri()
         used.add(ro_uri)
-        contents.append("(%s, %s)" % (T.bytes_(ro_uri), T.bytes_(data)))
+        contents.append("(%s, %s)" % (D.B(ro_uri), D.B(data)))
         w = dn.get_write_uri()
         if w:
             used.add(w)
             wk = dn._node.get_writekey()
-            wkof.append("(%s, %s)" % (T.bytes_(w), T.bytes_(wk)))
+            wkof.append("(%s, %s)" % (D.B(w), D.B(wk)))
             for (name, rof, rwc, rw, md) in D.read_packed(data, wk):
                 key = D.rwcap_key(rwc[:16], wk)
                 if key not in seen_keys:
                     seen_keys.add(key)
-                    aes_items.append("(%s, %s)" % (T.bytes_(key), T.bytes_(D.aes_ctr(key, b"\0" * len(rw or b"")))))
+                    aes_items.append("(%s, %s)" % (D.B(key), D.B(D.aes_ctr(key, b"\0" * len(rw or b"")))))
         for name, (n, md) in final.items():
             for x in (n.get_write_uri(), n.get_readonly_uri()):
                 if x:
@@ -288,7 +288,7 @@ def path_model(ctx, i, r, t, root, root_ro, store, tbl, terms, info, case):
     lets = ("let cls := %s in let nrm := (fun x : bytes => x) in let aes := aes_tbl [%s] in "
             "let contents := tbl_fun [%s] in let wkof := tbl_wk [%s] in "
             % (tbl.coq(used), "; ".join(aes_items), "; ".join(contents), "; ".join(wkof)))
-    pth = "[%s]" % "; ".join(T.bytes_(p.encode("utf-8")) for p in path)
+    pth = "[%s]" % "; ".join(D.B(p.encode("utf-8")) for p in path)
     t1 = lets + ("match walk cls nrm bytes loads_raw aes contents wkof %s %s with Some n => node_eqb n %s | None => false end"
                  % (D.coq_node(D.node_obs(root_ro)), pth, D.coq_node(D.node_obs(got_ro))))
     terms.append(t1)
@@ -354,13 +354,13 @@ def flat_case(ctx, i, terms, info):
         used = set()
         for s in spec:
             used.update(x for x in s[1:3] if x)
-        exp = "[%s]" % "; ".join("(%s, (%s, %s))" % (T.bytes_(name.encode("utf-8")), D.coq_node(D.node_obs(children[name][0])), T.bytes_(dumps_md(children[name][1])))
+        exp = "[%s]" % "; ".join("(%s, (%s, %s))" % (D.B(name.encode("utf-8")), D.coq_node(D.node_obs(children[name][0])), D.B(dumps_md(children[name][1])))
                                 for name in sorted(children, key=lambda s: s.encode("utf-8")))
-        kidl = "[%s]" % "; ".join("create_from_cap cls false %s %s" % (T.opt(T.bytes_(s[1]) if s[1] is not None else None),
-                                                                       T.opt(T.bytes_(s[2]) if s[2] is not None else None)) for s in spec)
+        kidl = "[%s]" % "; ".join("create_from_cap cls false %s %s" % (T.opt(D.B(s[1]) if s[1] is not None else None),
+                                                                       T.opt(D.B(s[2]) if s[2] is not None else None)) for s in spec)
         t = ("let cls := %s in forallb (fun n => stableb cls n && ro_slot_okb cls n) %s && "
              "match unpack_contents cls (fun x => x) bytes loads_raw (fun _ d => d) false true [] %s with inr ch => view_eqb (view bytes ch) %s | inl _ => false end"
-             % (tbl.coq(used), kidl, T.bytes_(packed), exp))
+             % (tbl.coq(used), kidl, D.B(packed), exp))
         terms.append(t)
         info.append(case)
 
